@@ -2,6 +2,7 @@
 import math
 
 from ..srcmodel import AnalysisError
+from ..stages import estimates
 from ..algebra import Poly
 from ..ndarr import Arr, InterpRaise
 from ..pipeline import Pipeline
@@ -69,35 +70,37 @@ def arrays(ctx):
 def zero_order(ctx, P):
     """n == 0 returns f(x) itself: one evaluation at x, a 0-term Richardson rule."""
     rep = ctx.rep
-    rep.rule('R-ZERO', 'n == 0 selects _derivative_zero_order: f is evaluated exactly once, at x, with the call '
+    rep.rule('R-ZERO', 'n == 0: f is evaluated exactly once, at x, with the call '
              'arguments; the estimate table is that value; the Richardson rule has 0 terms (weights ones(1)); '
              'setting n re-selects the evaluation routine', 4)
     I = P.interp
     core = P.repo.module('core')
     for method in ('central', 'forward', 'complex', 'multicomplex'):
         obj, x = P.build('Derivative', method, 2, n=0)
-        (der, h, shape), fx = I.getattr(obj, '_derivative')(x, (), {})
+        (der, h, shape), fx = estimates(I, obj, x)
         rich = obj.attrs['richardson']
         rule = I.getattr(rich, 'rule')(1)
         offs = [c[0] for c in P.calls]
         ok = (len(P.calls) == 1 and all(p.is_zero() for p in offs[0]) and isinstance(der, Arr) and der.size == 1
-              and isinstance(der.item(), FV) and rich.attrs.get('num_terms') == 0
+              and isinstance(der.item(), FV) and I.getattr(rich, 'num_terms') == 0
               and isinstance(rule, Arr) and rule.size == 1)
         rep.check(ok, 'R-ZERO', 'core.Derivative._derivative_zero_order', core.relpath,
                   {'calls': [tuple(repr(p) for p in o) for o in offs], 'estimate': repr(der.items()[:2]),
-                   'richardson_terms': rich.attrs.get('num_terms'), 'rule': repr(rule)},
+                   'richardson_terms': I.getattr(rich, 'num_terms'), 'rule': repr(rule)},
                   'one evaluation at x; value returned unchanged', 'Derivative/%s/n=0' % method, key='zero-order')
-    # the n setter re-selects the routine
+    # the n setter re-selects the routine: judged by what the next call evaluates, not by which method is stored
     obj, x = P.build('Derivative', 'central', 2, n=1)
-    I.setattr(obj, 'n', 0)
-    r0 = obj.attrs.get('_derivative')
-    I.setattr(obj, 'n', 2)
-    r2 = obj.attrs.get('_derivative')
-    name0 = getattr(getattr(r0, 'func', None), 'name', None)
-    name2 = getattr(getattr(r2, 'func', None), 'name', None)
-    rep.check(name0 == '_derivative_zero_order' and name2 == '_derivative_nonzero_order', 'R-ZERO',
-              'core.Derivative.n (setter)', core.relpath, {'after_n=0': name0, 'after_n=2': name2},
-              'the n setter re-selects _derivative_zero_order / _derivative_nonzero_order', 'Derivative/n setter',
+    seen = {}
+    for nn in (0, 2):
+        I.setattr(obj, 'n', nn)
+        del P.calls[:]
+        estimates(I, obj, x)
+        seen[nn] = [tuple(repr(p) for p in c[0]) for c in P.calls]
+    at_x = [o for o in seen[0] if all(p == '0' for p in o)]
+    moved = [o for o in seen[2] if any(p != '0' for p in o)]
+    rep.check(len(seen[0]) == 1 and len(at_x) == 1 and len(moved) >= 2, 'R-ZERO',
+              'core.Derivative.n (setter)', core.relpath, {'evaluations_after_n=0': seen[0][:3], 'evaluations_after_n=2': seen[2][:4]},
+              'after n = 0 one evaluation at x; after n = 2 a difference stencil again', 'Derivative/n setter',
               key='n-setter')
 
 
